@@ -147,6 +147,23 @@ def gen_cond(g, cls, R, Dy, Dx, ctor=None):
     elif cls in ("full", "diag"):
         d["M"] = [g.mat(Dy, Dx) for _ in range(R)]
         d["b"] = g.mat(R, Dy) if g.randint(0, 3) else None
+    # every fifth conditional gets SPECIAL values: a zero row / a zero matrix M, zero offset, identity noise, identical components
+    if g.randint(0, 4) == 0:
+        kind = g.choice(["zero_M_row", "zero_M", "zero_b", "identity_Sig", "equal_comps"])
+        Rn = len(d["Sig"])
+        if kind == "identity_Sig":
+            d["Sig"] = [[[Fr(int(i == j)) for j in range(Dy)] for i in range(Dy)] for _ in range(Rn)]
+        elif kind == "equal_comps":
+            d["Sig"] = [d["Sig"][0] for _ in range(Rn)]
+        elif cls in ("full", "diag"):
+            if kind == "zero_M_row":
+                k = g.randint(0, Dy - 1)
+                d["M"] = [[([Fr(0)] * Dx if i == k else row) for i, row in enumerate(Mr)] for Mr in d["M"]]
+            elif kind == "zero_M":
+                d["M"] = [[[Fr(0)] * Dx for _ in range(Dy)] for _ in d["M"]]
+            elif d.get("b") is not None:
+                d["b"] = [[Fr(0)] * Dy for _ in d["b"]]
+        d["special"] = kind
     # every fourth conditional was built with ANOTHER covariance and brought to this one by update_Sigma(...)
     # (a multi-step history: all cached quantities must be those of the new covariance)
     if g.randint(0, 2) == 0:
@@ -797,6 +814,8 @@ def hist(d):
             for kk in ("cls", "R", "Ru", "D", "Dy", "Dx", "ctor", "diag"):
                 if kk in d[k]:
                     h["%s.%s" % (k, kk)] = d[k][kk]
+            if d[k].get("special"):
+                h["%s.special" % k] = d[k]["special"]
             h["%s.history" % k] = "update_Sigma" if d[k].get("Sig0") is not None else ("update" if d[k].get("upd") is not None else "fresh")
     return h
 
